@@ -1,4 +1,5 @@
 import NflowsModel.Audit.Tool
 import NflowsModel.Properties.C17
+import NflowsModel.Properties.C17E
 
 #audit_namespace Properties.C17
